@@ -49,7 +49,7 @@ def one(d):
         assert rc == 0, out
         rc1, out1 = sh("PYTHONPATH=. XYZPY_ROOT=%s %s -W ignore %s" % (wt, PY, os.path.join(d, "demo.py")), wt)
         res["demo_with_change_rc"] = rc1
-        ids = sorted(set([meta["property"]] + list(meta.get("detected_by", []))))
+        ids = sorted(set([meta["property"]] + list(meta.get("detected_by", [])) + list(meta.get("also_check", []))))
         for c in ids:
             t0 = time.time()
             rc, out = sh("./check %s --tier quick" % c, "/verif",
